@@ -1,5 +1,5 @@
 (* C08 - retry, timeout and recovery contract of an exchange. Statements only. *)
-From MS Require Import lib.Base gen.GenLan model.Session proofs.SessionProofs proofs.SessionHoare.
+From MS Require Import lib.Base gen.GenLan model.Session proofs.SessionProofs proofs.SessionHoare proofs.SessionLive.
 Local Open Scope N_scope.
 
 (* at most `retries` transmissions of the request - in every state, for every environment *)
@@ -50,6 +50,17 @@ Print Assumptions C08_recovery_v3.
 Theorem C08_sporadic_reads_never_raise : forall v fuel acc, keeps (hc v) (read_available fuel acc) (fun _ => False).
 Proof. exact read_available_never_raises. Qed.
 Print Assumptions C08_sporadic_reads_never_raise.
+
+(* sentence 1 of C08 on an established session: on a live connection (V3: holding an unexpired session key) LAN.send with a
+   budget of at least one transmits the request AT LEAST ONCE - for every content of the receive queue, every environment
+   script and whatever happens afterwards *)
+Theorem C08_live_connection_transmits : forall f r w,
+  alive_b w = true ->
+  (forall c, l_proto (w_lan w) = Some c -> c_v3 c = true ->
+     match c_key c, c_lexp c with Some _, Some e => (e <? w_now w) = false | _, _ => False end) ->
+  exists evs, w_log (snd (lan_send f (S r) w)) = w_log w ++ evs /\ (1 <= ndata evs)%nat.
+Proof. exact live_connection_transmits. Qed.
+Print Assumptions C08_live_connection_transmits.
 
 (* the F10 history in the model: two handshake replies arrive after their read timeouts and wait in the queue; both following
    exchanges with the promptly answering device succeed *)
